@@ -366,6 +366,37 @@ func c07(r *Run) {
 	// an already expired deadline answers with the timeout error
 	expiredRule(r, waitRead, "ErrReadTimeout", "C07.R5")
 
+	// Until: "skip what was already scanned" - the offset handed to the next scan is a length read BEFORE the scan it follows;
+	// read after it, bytes that arrive in between are skipped unscanned and a delimiter among them is never found
+	{
+		fn := w.MustFn("(*connection).Until")
+		isWait := func(i ssa.Instruction) bool { return isCall(i, waitRead) }
+		scans := findIns(fn, func(i ssa.Instruction) bool {
+			m, ok := callOnField(i, "connection", "inputBuffer")
+			return ok && m == "indexByte"
+		})
+		if len(scans) == 0 {
+			r.absentf(" C07: Until does not scan the input buffer with indexByte")
+		}
+		for _, scan := range scans {
+			args := callCommon(scan).Args
+			skip := args[len(args)-1]
+			for _, leaf := range phiLeaves(skip) {
+				li, isIns := leaf.(ssa.Instruction)
+				if !isIns {
+					continue
+				}
+				if m, ok := callOnField(li, "connection", "inputBuffer"); !ok || m != "Len" {
+					continue
+				}
+				ss := &Search{Fn: fn, Stop: isWait, NoInline: true}
+				wit := ss.Find([]Start{After(scan)}, func(i ssa.Instruction) bool { return i == li }, false)
+				r.Visited += ss.Visited
+				r.obW("C07.R2:until-skips-only-scanned-bytes", "the length Until remembers as 'already scanned' is read before the scan it describes (between a scan and the next wait no new length is taken): bytes delivered while the scan runs are scanned next time, not skipped", fn, li, wit, "Len() is not reachable from indexByte() before the next waitRead()")
+			}
+		}
+	}
+
 	// ---- R6 no nil receiver on the address fields ---------------------------------------------
 	nilGuards(r)
 }
